@@ -1,0 +1,17 @@
+//! Verification hook (cargo feature `verif`): entry counts of every map of this index.
+//! The exhaustive destructuring makes a new field break this build until it is accounted for.
+use super::LuaFlowIndex;
+
+impl LuaFlowIndex {
+    pub fn verif_report(&self) -> Vec<(&'static str, usize)> {
+        let Self {
+            file_flow_tree,
+            signature_cast_cache,
+        } = self;
+        vec![
+            ("flow.file_flow_tree", file_flow_tree.len()),
+            ("flow.signature_cast_cache", signature_cast_cache.len()),
+            ("flow.signature_cast_cache.items", signature_cast_cache.values().map(|v| v.len()).sum()),
+        ]
+    }
+}
